@@ -37,7 +37,11 @@ type callerSpec struct {
 	Kind      int  `json:"kind"`      // CorNew+Start or DoNotation
 	IOAt      int  `json:"ioAt"`      // before request #IOAt call YieldFromIO (-1 = never)
 	IOHandler bool `json:"ioHandler"` // the IO observes on a handler
-	Gap       int  `json:"gap"`       // yields between requests
+	// IOSub: the IO handed to YieldFromIO already carries a SubscribeOn handler: 0 none, 1 the handler it
+	// observes on, 2 another (unbuffered) handler, 3 a handler that has been closed. YieldFromIO returns the
+	// IO's value whatever the IO's own delivery configuration is
+	IOSub int `json:"ioSub"`
+	Gap   int `json:"gap"` // yields between requests
 }
 
 type scenario struct {
@@ -57,7 +61,7 @@ func (s scenario) String() string {
 	var sb strings.Builder
 	fmt.Fprintf(&sb, "shape=%s startWithVal=%v eager=%v restart=%d callers=", []string{"fixed", "echo", "accumulate"}[s.Shape], s.StartWithVal, s.Eager, s.Restart)
 	for _, c := range s.Callers {
-		fmt.Fprintf(&sb, "[%s k=%d io@%d h=%v gap=%d]", []string{"cor", "do", "newAndStart"}[c.Kind], c.K, c.IOAt, c.IOHandler, c.Gap)
+		fmt.Fprintf(&sb, "[%s k=%d io@%d h=%v sub=%d gap=%d]", []string{"cor", "do", "newAndStart"}[c.Kind], c.K, c.IOAt, c.IOHandler, c.IOSub, c.Gap)
 	}
 	fmt.Fprintf(&sb, " plan=%v", s.Plan)
 	return sb.String()
@@ -82,6 +86,7 @@ func genScenario(t *rapid.T) scenario {
 		if rapid.IntRange(0, 3).Draw(t, "io") == 0 {
 			c.IOAt = rapid.IntRange(0, k-1).Draw(t, "ioAt")
 			c.IOHandler = rapid.Bool().Draw(t, "ioHandler")
+			c.IOSub = rapid.SampledFrom([]int{0, 0, 1, 2, 3}).Draw(t, "ioSub")
 		}
 		s.Callers = append(s.Callers, c)
 	}
@@ -128,6 +133,10 @@ func runScenario(s scenario) result {
 		total++
 	}
 	h := fpgo.Handler.NewByCh(make(chan func(), 8))
+	h2 := fpgo.Handler.New()
+	defer h2.Close()
+	hClosed := fpgo.Handler.New()
+	hClosed.Close()
 	defer h.Close()
 	hIDCh := make(chan uint64, 1)
 	h.Post(func() { hIDCh <- vlib.GoID() })
@@ -185,6 +194,14 @@ func runScenario(s scenario) result {
 				io := fpgo.MonadIONewGenerics(func() int { effG = vlib.GoID(); return want })
 				if spec.IOHandler {
 					io = io.ObserveOn(h)
+				}
+				switch spec.IOSub {
+				case 1:
+					io = io.SubscribeOn(h)
+				case 2:
+					io = io.SubscribeOn(h2)
+				case 3:
+					io = io.SubscribeOn(hClosed)
 				}
 				ioResults[i] = [2]int{want, self.YieldFromIO(io)}
 				if spec.IOHandler && effG != hID {
